@@ -111,21 +111,21 @@ func run(e *vlib.Env) vlib.Result {
 }
 
 type hrec struct {
-	k          int
-	name       string
-	topic      string
-	sub        *vlib.Sub
-	pub        *vlib.Pub
-	h          *message.Handler
-	handled    atomic.Int32
-	gate       atomic.Pointer[chan struct{}]
-	late       bool
-	stopped    bool
-	shared     int
-	pubGate    atomic.Pointer[chan struct{}] // close-timeout class: Publish of the handler's publisher is held while set
-	publishing atomic.Int32                  // Publish calls entered
-	ss         *startSub                     // fault / retry and close-timeout classes: the subscriber handed to the router
-	faults     int                           // Subscribe calls of this handler that are made to fail
+	k       int
+	name    string
+	topic   string
+	sub     *vlib.Sub
+	pub     *vlib.Pub
+	h       *message.Handler
+	handled atomic.Int32
+	gate    atomic.Pointer[chan struct{}]
+	late    bool
+	stopped bool
+	shared  int
+	pubGate atomic.Pointer[chan struct{}] // close-timeout class: Publish of the handler's publisher is held while set
+	heldNow atomic.Int32                  // messages that have been held at gate / pubGate (world.add handlers)
+	ss      *startSub                     // fault / retry and close-timeout classes: the subscriber handed to the router
+	faults  int                           // Subscribe calls of this handler that are made to fail
 }
 
 // redundantRun calls Run on a router whose first Run was accepted earlier and judges "a second Run returns an error".
@@ -1205,8 +1205,8 @@ func (w *world) add(k, gen int) (*hrec, any) {
 	}
 	h.pub = &vlib.Pub{Name: fmt.Sprintf("%s-%d.%d", w.id, k, gen)}
 	h.pub.Script = func(int, string, []*message.Message) error {
-		h.publishing.Add(1)
 		if g := h.pubGate.Load(); g != nil {
+			h.heldNow.Add(1)
 			<-*g // the broker takes its time to confirm the publish
 		}
 		return nil
@@ -1222,6 +1222,7 @@ func (w *world) add(k, gen int) (*hrec, any) {
 		h.h = w.r.AddHandler(h.name, h.topic, sub, h.topic+"/out", h.pub, func(m *message.Message) ([]*message.Message, error) {
 			h.handled.Add(1)
 			if g := h.gate.Load(); g != nil {
+				h.heldNow.Add(1)
 				<-*g // the handler function is busy until the harness opens the gate
 			}
 			return []*message.Message{message.NewMessage(m.UUID+"/o", nil)}, nil
